@@ -8,7 +8,7 @@ from vf.core import Part, Violation, call
 from vf.props import common
 
 PROPERTY = "C16"
-RULE = ("Parts 'shapes*': EXHAUSTIVE enumeration of every single threshold node (AtLeast with value -2..3 and sign +1/-1/default, AtMost "
+RULE = ("Part 'cfg_shapes': ENUMERATED configurators with one defaulted/plain configurator Any/Xor (2-4 members incl. integer/constant/compound members, every default variant) at top level, as consequence, as condition and below every connective (Any, All, AtLeast, AtMost, Xor, XNor, Not); compared modulo generated ids, rows as a sorted list. Parts 'shapes*': EXHAUSTIVE enumeration of every single threshold node (AtLeast with value -2..3 and sign +1/-1/default, AtMost "
         "-2..2, All, Any over a boolean and an integer leaf with negative lower bound, explicit/generated id) alone and inside "
         "every connective (Imply condition/consequence, Not, double Not, XNor, Xor, All, Any, AtMost, AtLeast). "
         "Part 'models': Hypothesis generates validated model DAG specs over every class of the JSON class map (AtLeast with "
